@@ -236,6 +236,8 @@ class Sched:
         return t
 
     def observe(self, ev, **fields):
+        if self.aborting and ev not in ("stuck", "end"):
+            return
         d = {"ev": ev}
         t = self.me()
         if t is not None and "thread" not in fields:
